@@ -87,6 +87,7 @@ ObsInit == [
   reopen   |-> {},                        \* vBuckets whose transient end must be followed by a re-open (C12)
   high     |-> [v \in VB |-> 0 - 1],      \* high seqnos the server reported at open (C15)
   closeCalled |-> FALSE, closeReturned |-> FALSE, stoppedSeen |-> FALSE,
+  finalFailed |-> FALSE,                  \* the final save of Close() was attempted and the store refused it (C13 cannot ask for more)
   needClose |-> [v \in VB |-> 0 - 1],    \* positions settled before Close() was called (C13)
   closereq |-> {},                        \* vBuckets for which CloseStream was requested since they were opened
   \* ---- metrics (C16) --------------------------------------------------------------
@@ -124,7 +125,7 @@ Unconfirmed(o) == {v \in VB : o.adv[v] > o.conf[v]}
 ApBoot(o, e) ==
   [o EXCEPT !.phase = "init", !.auto = e.auto, !.readonly = e.readonly, !.finite = e.finite, !.minfo = <<e.member, e.total>>, !.nbursts = 0, !.ncycles = 0,
             !.burstOpen = FALSE, !.ended = {}, !.reopen = {}, !.closeCalled = FALSE, !.closeReturned = FALSE,
-            !.stoppedSeen = FALSE, !.closereq = {}, !.high = [v \in VB |-> 0 - 1], !.nreb = 0,
+            !.stoppedSeen = FALSE, !.finalFailed = FALSE, !.closereq = {}, !.high = [v \in VB |-> 0 - 1], !.nreb = 0,
             !.kcnt = [v \in VB |-> <<0, 0, 0>>], !.lastdoc = [v \in VB |-> ""],
             !.up = TRUE, !.boots = @ + 1, !.saves = {}, !.closing = FALSE, !.mustdie = FALSE,
             !.streaming = [v \in VB |-> FALSE], !.inpush = [v \in VB |-> FALSE], !.range = {},
@@ -382,7 +383,8 @@ ApStoreWrite(o, e) ==
 
 \* metadata.Save returned (e.ok)
 ApSaveEnd(o, e) ==
-  LET o1 == IF e.ok THEN [o EXCEPT !.conf = [v \in VB |-> StoreSeq(o, v)], !.owned = {}] ELSE Touch(o) IN
+  LET o0 == IF e.t = "main" /\ ~e.ok THEN [o EXCEPT !.finalFailed = TRUE] ELSE o
+      o1 == IF e.ok THEN [o0 EXCEPT !.conf = [v \in VB |-> StoreSeq(o, v)], !.owned = {}] ELSE Touch(o0) IN
   IF ~HasSave(o, e.t) THEN o1
   ELSE UpdSave(o1, e.t, [SaveOf(o1, e.t) EXCEPT !.failed = ~e.ok])
 
@@ -430,7 +432,7 @@ ApCallback(o, e) ==
       o3 == IF e.name = "BeforeRebalanceEnd" THEN [o2 EXCEPT !.burstOpen = FALSE]
             ELSE IF e.name = "AfterRebalanceEnd" THEN [o2 EXCEPT !.nreb = @ + 1] ELSE o2
       o4 == IF e.name = "AfterStreamStart"
-            THEN Check(Check(o3, \A v \in o.range : o.streaming[v], "C15",
+            THEN Check(Check(o3, \A v \in o.range : o.streaming[v] \/ v \in o.ended \/ v \in o.reopen, "C15",
                              "session runs although not every assigned vBucket stream was opened"),
                        ~o.mustdie, "C15", "start-up went on after a failed query or an inconsistent checkpoint")
             ELSE o3
@@ -445,7 +447,8 @@ ApNotify(o, e) ==
 ApEndSent(o, e) ==
   LET v == e.vb IN
   IF ~o.streaming[v] THEN o
-  ELSE IF e.cause \in TransientCauses /\ ~o.closing /\ ~o.closeCalled /\ o.phase = "open"
+  \* (also while the session is still being opened: the vBuckets already streaming are as open as they will be)
+  ELSE IF e.cause \in TransientCauses /\ ~o.closing /\ ~o.closeCalled /\ o.phase \in {"open", "st1", "re2"}
   THEN [o EXCEPT !.reopen = @ \cup {v}, !.streaming[v] = FALSE]
   ELSE IF o.closing \/ v \in o.closereq THEN [o EXCEPT !.streaming[v] = FALSE]
   ELSE [o EXCEPT !.ended = @ \cup {v}, !.streaming[v] = FALSE]
@@ -469,7 +472,7 @@ ApCloseReturn(o, e) ==
   LET lost == {v \in VB : o.needClose[v] >= 0 /\ StoreSeq(o, v) < o.needClose[v]}
       open_ == {v \in VB : o.streaming[v] /\ v \notin o.closereq}
       o1 == [o EXCEPT !.closeReturned = TRUE]
-      o2 == Check(o1, lost = {} \/ o.readonly, "C13", "Close() returned but a position settled before the call is not stored")
+      o2 == Check(o1, lost = {} \/ o.readonly \/ o.finalFailed, "C13", "Close() returned but a position settled before the call is not stored")
   IN  Check(o2, open_ = {}, "C13", "Close() returned but a vBucket stream was never closed")
 
 \* a scrape of the metrics endpoint returned e (C16)
